@@ -322,6 +322,8 @@ def _trunc_bound(t):
         if lo.op == "const" and lo.args[0] in (None, 0) and step.op == "const" and step.args[0] in (None, 1):
             return hi
         return None
+    if idx.op == "lt" and len(idx.args) == 2 and getattr(idx.args[0], "op", None) == "arange" and len(idx.args[0].args) == 1:
+        return idx.args[1]  # a[np.arange(len(a)) < n]: the prefix of length n, by mask
     if idx.op == "arange" and len(idx.args) == 1:
         b = idx.args[0]
         if b.op == "dim" and len(b.args[0].lin) == 1 and b.args[0].c == 0:
